@@ -324,7 +324,7 @@ def relinkLoop (s : Store) (start : Nat) : Nat → Option Nat → Res Store
     let nn ← s1.get node
     match nn.children with
     | some c => do
-      let s2 ← s1.modify c fun y => { y with parent := some node }
+      let s2 ← s1.modify c fun y => { y with parent := some node, prev := none }
       relinkLoop s2 start f (some c)
     | none => do
       let r ← relinkUp s1 start s1.fuel node
@@ -334,7 +334,7 @@ def relinkLoop (s : Store) (start : Nat) : Nat → Option Nat → Res Store
 def relink (s : Store) (fuel node : Nat) : Res Store := do
   let sn ← s.get node
   let s1 ← (match sn.children with
-    | some c => s.modify c fun y => { y with parent := some node }
+    | some c => s.modify c fun y => { y with parent := some node, prev := none }
     | none => .ok s)
   relinkLoop s1 node fuel sn.children
 
